@@ -830,9 +830,13 @@ func (g *Gen) modifiedRefs(tag string) ([]string, error) {
 					out = append(out, fmt.Sprintf("(not (= r %s))", v.t))
 				}
 			case *types.Slice:
-				out = append(out, fmt.Sprintf("(not (= (rb r) (rb (sarr %s))))", v.t))
+				if g.tagHoldsCellsOf(tag, v.ty.Go.Underlying().(*types.Slice).Elem()) {
+					out = append(out, fmt.Sprintf("(not (= (rb r) (rb (sarr %s))))", v.t))
+				}
 			case *types.Pointer:
-				out = append(out, fmt.Sprintf("(not (= (rb r) (rb %s)))", v.t))
+				if g.tagHoldsCellsOf(tag, v.ty.Go.Underlying().(*types.Pointer).Elem()) {
+					out = append(out, fmt.Sprintf("(not (= (rb r) (rb %s)))", v.t))
+				}
 			}
 			continue
 		}
@@ -888,6 +892,18 @@ func (g *Gen) modifiedRefs(tag string) ([]string, error) {
 		}
 	}
 	return out, nil
+}
+
+// tagHoldsCellsOf: can the heap tag hold a cell of an object of type t (its fields, nested structs, array elements, or
+// a ghost field owned by t)?
+func (g *Gen) tagHoldsCellsOf(tag string, t types.Type) bool {
+	if strings.HasPrefix(tag, "GF!") {
+		return strings.HasPrefix(tag, "GF!"+sanitize(types.TypeString(t, nil))+"!")
+	}
+	tags := map[string]bool{}
+	g.collectElemTags(t, tags)
+	tags[g.cellTag(t)] = true
+	return tags[tag]
 }
 
 func (g *Gen) entryEnvRO() *Env {
